@@ -14,7 +14,7 @@ CFG = {
             "on the implementation's snapshot; panic/hang are outcomes. Streams: corpus (17 witnesses of fixed findings), grammar-generated "
             "sequences (print narrow/wide/zero-width/combining, C0, ESC, every CSI final of csi() + unknown ones, parameters omitted/0/1/2/"
             "size-1/size/size+1/65535/65536/2^31/2^63-1/negative (overflowed), sub-parameters, modes, SGR incl. malformed, OSC, APC, resizes; "
-            "sizes 1x1..80x24), raw byte fuzz through the real ansi parser. C05Events: the REAL PTY goroutine loop on a real child process "
+            "sizes 1x1..80x24), a slice of the C06 bounded-exhaustive vocabulary sequences (after setup prefixes, `adopt` lines), raw byte fuzz through the real ansi parser. C05Draw: Vaxis on a fake console filled with a marker, emulator drawn into windows partly off-screen / nested / of a different size; oracle: every changed host cell and the cursor lie inside the window. C05Events: the REAL PTY goroutine loop on a real child process "
             "(VerifRunLoop) with 0-40 (thorough: up to 300) event-raising sequences. distinct = distinct op sequences.",
     "trusted_base": ["uniseg grapheme widths are parameters of the model (passed in the op line by the harness, computed by the real library)",
                      "base64 validity of an OSC 52 payload is passed in by the harness (OscInfo)",
